@@ -561,15 +561,54 @@ def translate(text):
             out.append("  (%s, %s)%s" % (coq_re(r), tag, ";" if k + 1 < len(rules) else ""))
         out.append("].")
     out.append("")
+    bounds = set()
+
+    def walk(r):
+        if r[0] == "chr":
+            for lo, hi in r[2]:
+                bounds.update(x for x in (lo - 1, lo, hi, hi + 1) if 0 <= x <= 0x10FFFF)
+        elif r[0] == "str":
+            bounds.update(r[1])
+        elif r[0] in ("cat", "alt"):
+            for x in r[1]:
+                walk(x)
+        elif r[0] in ("star", "plus", "opt"):
+            walk(r[1])
+        elif r[0] == "rep":
+            walk(r[2])
+        elif r[0] == "ref":
+            walk(defs[r[1]])
+    for r, _t, _s in bol_rules + main_rules:
+        walk(r)
     info = {"types": types, "definitions": order, "bol_rules": len(bol_rules), "main_rules": len(main_rules),
+            "class_bounds": sorted(bounds),
             "tags": sorted(set(t for _r, t, _s in bol_rules + main_rules))}
     return "\n".join(out), info
+
+
+SCAN_PY_RE = re.compile(r'\ndef scan\(text\):\n    text \+= "\\0" \* ([0-9]+)\n    return _mwscan\.scan\(text\)\n')
+
+
+def sentinel_count(utoken_text):
+    """utoken.scan must be exactly: append N NULs, call _uscan.scan (utoken.py:216-218)"""
+    m = SCAN_PY_RE.findall(utoken_text)
+    if len(m) != 1:
+        raise TranslateError("utoken.scan changed (expected: text += \"\\0\" * N; return _mwscan.scan(text))")
+    if "from mwlib.parser.token import _uscan as _mwscan" not in utoken_text:
+        raise TranslateError("utoken no longer imports _uscan as _mwscan")
+    n = int(m[0])
+    if n > 2000:
+        raise TranslateError("sentinel count too large for a nat literal")
+    return n
 
 
 def generate(src):
     path = os.path.join(src, REL)
     text = open(path, encoding="utf8").read()
     gen, info = translate(text)
+    n = sentinel_count(open(os.path.join(src, "mwlib/parser/token/utoken.py"), encoding="utf8").read())
+    gen += "\n(* utoken.scan (utoken.py): number of NUL sentinels appended before _uscan.scan *)\nDefinition sentinel_count : nat := %d.\n" % n
+    info["sentinels"] = n
     core.write_if_changed(os.path.join(core.COQ, "C10", "Gen_rules.v"), gen)
     return info
 
